@@ -1002,10 +1002,6 @@ class Harness:
             raise Violation("c19.fault-free", "%s:%s" % (what, detail.split(" ")[0]),
                             "perfect network, nobody closed anything, idle timeouts >= 60 s, yet client %d saw: %s" % (
                                 st.index, "; ".join("%s -> %s" % f for f in st.failures[:4])))
-        for w in self.waiters:
-            if w.owner == "server" and w.kind == "ping" and w.result not in ("ok", None):
-                # a server-side ping can legitimately fail when the client has left meanwhile
-                continue
 
 
 def run_one(seed, tier="quick", variant=None, replay=None):
